@@ -41,7 +41,10 @@ LINE = re.compile(r"^(?P<prefix>[ |└├-]*)(?P<cls>\w+) (?P<id>\S+)(?P<star> \
 
 
 def gen(seed, tier):
-    pl = P.gen_plan(seed, PROFILE, PROP)
+    prof = PROFILE
+    if seed % 16 == 9:
+        prof = P.profile(**{**PROFILE, "dims": [12, 13, 14], "pop": [4, 8], "metaepochs": [2, 5]})  # long genome lines
+    pl = P.gen_plan(seed, prof, PROP)
     r = _random.Random(seed ^ 0xC20)
     probes = []
     for _ in range(r.randint(1, 5)):
@@ -115,6 +118,17 @@ class C20Monitor(Monitor):
         super().__init__(w)
         self.maximize = bool(w.plan["maximize"])
         self.probes = {int(p["consult"]): p["accessors"] for p in w.plan.get("probes", [])}
+        self.ran = {}  # id(deme) -> deme: it was stepped in some metaepoch (as seen by the simulator)
+
+    def on_request(self, req):
+        w = self.w
+        if w.phase == "metaepoch" and req.deme >= 0:
+            d = w.deme_list[req.deme].obj
+            self.ran[id(d)] = d
+
+    def on_lsc(self, deme, raw, verdict):
+        if self.w.phase == "metaepoch":
+            self.ran[id(deme)] = deme
 
     # ------------------------------------------------------------------ reports
     def _reports(self, tree):
@@ -202,6 +216,10 @@ class C20Monitor(Monitor):
         for d in demes:
             if d is not tree.root and len(d._history) - 1 >= 1 and not any(d is x for x in shown):
                 self.violate("deme-with-metaepochs-not-displayed", {"deme": d.id})
+            if d is not tree.root and id(d) in self.ran and len(d._history) - 1 == 0 and w.plan.get("entry") != "phases":
+                # the simulator saw it work through a metaepoch, its own bookkeeping says it never ran
+                self.violate("deme-that-ran-not-displayed/" + type(d).__name__, {"deme": d.id,
+                                                                                "n_evaluations": d.n_evaluations})
         if len(parsed) != len(shown):
             self.violate("tree-line-count", {"lines": len(parsed), "expected": len(shown)})
             return
